@@ -2,6 +2,10 @@
 // the E2 shim: the first-in-first-out assignment of input sat ranges to outputs (properties C01,
 // C02).  Environment: rare-sat table = finite-map shim; varint under its C26 contract (ghost log);
 // Sat::common under its C29 contract (an arbitrary but recorded answer per call).
+//
+// STATUS (measured 2026-09-22): the harness compiles against the real text and the shims, but CBMC
+// did not finish it in 20 minutes (cadical and kissat); tier `manual`: run by neither command and
+// counted nowhere.  C01 / C02 stay not-applicable.
 #![allow(unused_imports, dead_code, static_mut_refs)]
 use super::*;
 #[cfg(not(kani))]
@@ -71,7 +75,7 @@ fn load_ranges(bytes: &[u8], out: &mut [(u64, u64); 4]) -> usize {
 ///   * what the outputs do not claim is appended to the leftover list (fees for the coinbase), in
 ///     order, and nothing else is.
 //# props: C01, C02
-//# tier: thorough
+//# tier: manual
 //# kind: bounded(shape: 1 input x 2 sat ranges, 2 outputs; every range and value symbolic)
 //# fns: index::updater::Updater::index_transaction_sats
 //# assume: redb::Table is a finite map (shim); ordinals::varint under its C26 contract; Sat::common is a pure predicate of the sat (C29)
@@ -124,7 +128,6 @@ pub fn c01_fifo_1x2_to_2() {
   let mut all = [(0u64, 0u64); 8];
   let mut n_all = 0;
   let mut j = 0;
-  let mut k_log = 0;
   while j < 2 {
     let e = outs[j].as_ref();
     // each output entry holds exactly one varint (the range count) - bind it to this buffer
@@ -144,7 +147,6 @@ pub fn c01_fifo_1x2_to_2() {
     assert!(sum == v[j], "C02.fifo.output_ranges_add_up_to_its_value");
     j += 1;
   }
-  let _ = k_log;
   // leftovers
   let mut ls = [(0u64, 0u64); 4];
   let n_left = load_ranges(&leftover, &mut ls);
